@@ -40,6 +40,25 @@ Theorem C03_select_error_iff : forall t p am ty m,
 Proof. exact select_none_iff. Qed.
 Print Assumptions C03_select_error_iff.
 
+(* how many: at_most is an upper limit (an int is a count), reached whenever enough members match;
+   a limit at least as large as the number of matches keeps every match *)
+Theorem C03_select_count : forall t p am ty m r,
+  select_members t p am ty m = Some r ->
+  let matches := zlen (filter (keepb t p ty) m) in
+  match limit am (zlen m) with
+  | None => zlen r = matches
+  | Some n => zlen r = Z.min (Z.max 0 n) matches
+  end.
+Proof. exact select_count. Qed.
+Print Assumptions C03_select_count.
+
+Theorem C03_select_all_when_limit_large : forall t p am ty m r,
+  select_members t p am ty m = Some r ->
+  match limit am (zlen m) with None => True | Some n => zlen (filter (keepb t p ty) m) <= n end ->
+  r = filter (keepb t p ty) m.
+Proof. exact select_all_when_limit_large. Qed.
+Print Assumptions C03_select_all_when_limit_large.
+
 (* two unlimited selects in a row = one select with the conjunction of the filters *)
 Theorem C03_select_twice : forall t p q m r1 r2,
   select_members t (Some p) AInf None m = Some r1 ->
@@ -508,6 +527,30 @@ Theorem C03_no_invention : forall ops st a,
   known_in (final st ops) a -> known_in st a \/ Exists (fun o => adds o a) ops.
 Proof. exact final_known. Qed.
 Print Assumptions C03_no_invention.
+
+(* What the correspondence compares after every operation determines the observable state: two
+   states (agent ids positive, as handed out by Mesa) with the same observation have the same
+   members in every slot of the pool and the same value for every observed attribute of every
+   agent.  So "observations agree" = "every set and every attribute agree". *)
+Theorem C03_observation_determines_state : forall st st',
+  pos_pool (st_pool st) -> pos_pool (st_pool st') -> length (st_tbl st) = length (st_tbl st') ->
+  obs_state st = obs_state st' ->
+  (forall s, In s slots -> members st s = members st' s) /\
+  Forall2 (fun e e' => forall n, In n attr_names -> assoc n (a_attrs (snd e)) = assoc n (a_attrs (snd e')))
+          (st_tbl st) (st_tbl st').
+Proof. exact obs_state_inj. Qed.
+Print Assumptions C03_observation_determines_state.
+
+Example C03_observation_example :
+  pos_pool (st_pool ex_state) /\
+  obs_state ex_state = [-7; -5; 3; 1; 2; -4; -5; 4; 1; -4; -4; -4; -6;
+                        1; 4; 1; 7; 0; 0;  1; -2; 0; 0; 0; 0;  1; 4; 1; 1; 0; 0;  1; 0; 0; 0; 0; 0].
+Proof.
+  split; [|vm_compute; reflexivity].
+  intros s m. unfold slot_get, ex_state. simpl.
+  destruct (s =? 0); [intros H; inversion H; repeat constructor|].
+  destruct (s =? 2); [intros H; inversion H; repeat constructor|discriminate].
+Qed.
 
 (* the observations run_case produces are those of the step function the theorems talk about *)
 Theorem C03_run_is_fold_of_step : forall ops1 ops2 st,
